@@ -1,7 +1,6 @@
 package main
 
 import (
-	"go/printer"
 	"go/ast"
 	"fmt"
 	"go/token"
@@ -320,80 +319,90 @@ func returnedCall(body []ast.Stmt) (string, []string) {
 	return name, args
 }
 
-// moduleWiringProblems inspects the AppModule methods of module.go that the SDK calls: each must contain, as a top-level
-// statement of its body, the expected call with the module's keeper (printed source compared after normalising the receiver and
-// parameter names).
+// moduleWiringProblems inspects (on the SSA, so local renames and temporaries do not matter) the AppModule methods of module.go
+// that the SDK calls: each must call, unconditionally (in its entry block), the expected function with the keeper field of its
+// own receiver among the arguments.
 func (p *Program) moduleWiringProblems() (bad []string, n int) {
-	want := map[string]func(recv string, params []string) string{
-		"EndBlock":             func(r string, ps []string) string { return "EndBlocker(" + ps[0] + ", " + r + ".keeper)" },
-		"Route":                func(r string, ps []string) string { return "sdk.NewRoute(types.RouterKey, NewHandler(" + r + ".keeper))" },
-		"LegacyQuerierHandler": func(r string, ps []string) string { return "keeper.NewQuerier(" + r + ".keeper, " + ps[0] + ")" },
-		"RegisterQueryService": func(r string, ps []string) string { return "types.RegisterQueryServer(" + ps[0] + ", " + r + ".keeper)" },
-		"InitGenesis":          func(r string, ps []string) string { return "InitGenesis(" + ps[0] + ", " + r + ".keeper, genesisState)" },
-		"ExportGenesis":        func(r string, ps []string) string { return "ExportGenesis(" + ps[0] + ", " + r + ".keeper)" },
+	want := map[string]string{
+		"EndBlock":             modPath + ".EndBlocker",
+		"Route":                modPath + ".NewHandler",
+		"LegacyQuerierHandler": modPath + "/keeper.NewQuerier",
+		"RegisterQueryService": modPath + "/types.RegisterQueryServer",
+		"InitGenesis":          modPath + ".InitGenesis",
+		"ExportGenesis":        modPath + ".ExportGenesis",
 	}
-	for _, pk := range p.pkgs {
-		if pk.PkgPath != modPath {
+	var isKeeperOfRecv func(fn *ssa.Function, v ssa.Value) bool
+	isKeeperOfRecv = func(fn *ssa.Function, v ssa.Value) bool {
+		switch x := v.(type) {
+		case *ssa.UnOp:
+			return isKeeperOfRecv(fn, x.X)
+		case *ssa.MakeInterface:
+			return isKeeperOfRecv(fn, x.X)
+		case *ssa.ChangeType:
+			return isKeeperOfRecv(fn, x.X)
+		case *ssa.Field:
+			st, ok := x.X.Type().Underlying().(*types.Struct)
+			if !ok || st.Field(x.Field).Name() != "keeper" {
+				return false
+			}
+			_, isParam := x.X.(*ssa.Parameter)
+			if u, ok := x.X.(*ssa.UnOp); ok {
+				_, isParam = u.X.(*ssa.Alloc)
+			}
+			return isParam
+		case *ssa.FieldAddr:
+			pt, ok := x.X.Type().Underlying().(*types.Pointer)
+			if !ok {
+				return false
+			}
+			st, ok := pt.Elem().Underlying().(*types.Struct)
+			if !ok || st.Field(x.Field).Name() != "keeper" {
+				return false
+			}
+			a, isAlloc := x.X.(*ssa.Alloc)
+			if !isAlloc || len(fn.Params) == 0 {
+				return false
+			}
+			// the alloc is the addressable copy of the receiver: it is initialised by a store of parameter 0
+			for _, ref := range *a.Referrers() {
+				if st, ok := ref.(*ssa.Store); ok && st.Addr == ssa.Value(a) && st.Val == ssa.Value(fn.Params[0]) {
+					return true
+				}
+			}
+			return false
+		}
+		return false
+	}
+	for name, fn := range p.funcs {
+		if !strings.HasPrefix(name, "("+modPath+".AppModule).") || fn.Signature.Recv() == nil || len(fn.Blocks) == 0 {
 			continue
 		}
-		for _, f := range pk.Syntax {
-			for _, d := range f.Decls {
-				fd, ok := d.(*ast.FuncDecl)
-				if !ok || fd.Recv == nil || fd.Body == nil || len(fd.Recv.List) != 1 {
-					continue
-				}
-				rt, ok := fd.Recv.List[0].Type.(*ast.Ident)
-				if !ok || rt.Name != "AppModule" {
-					continue
-				}
-				mk, ok := want[fd.Name.Name]
-				if !ok {
-					continue
-				}
-				n++
-				recv := "_"
-				if len(fd.Recv.List[0].Names) == 1 {
-					recv = fd.Recv.List[0].Names[0].Name
-				}
-				var params []string
-				for _, fl := range fd.Type.Params.List {
-					for _, nm := range fl.Names {
-						params = append(params, nm.Name)
-					}
-				}
-				if len(params) == 0 {
-					params = []string{"_"} // Route() has no parameter; its pattern uses none
-				}
-				expect := mk(recv, params)
-				found := false
-				for _, st := range fd.Body.List {
-					var e ast.Expr
-					switch x := st.(type) {
-					case *ast.ExprStmt:
-						e = x.X
-					case *ast.ReturnStmt:
-						if len(x.Results) == 1 {
-							e = x.Results[0]
-						}
-					case *ast.AssignStmt:
-						if len(x.Rhs) == 1 {
-							e = x.Rhs[0]
-						}
-					}
-					if e == nil {
-						continue
-					}
-					var sb strings.Builder
-					printer.Fprint(&sb, p.fset, e)
-					if strings.Join(strings.Fields(sb.String()), " ") == expect {
-						found = true
-					}
-				}
-				if !found {
-					bad = append(bad, fd.Name.Name+": no top-level statement "+expect)
+		target, ok := want[fn.Name()]
+		if !ok {
+			continue
+		}
+		n++
+		found := false
+		for _, ins := range fn.Blocks[0].Instrs {
+			call, ok := ins.(ssa.CallInstruction)
+			if !ok {
+				continue
+			}
+			cc := call.Common()
+			callee := cc.StaticCallee()
+			if callee == nil || callee.String() != target {
+				continue
+			}
+			for _, a := range cc.Args {
+				if isKeeperOfRecv(fn, a) {
+					found = true
 				}
 			}
 		}
+		if !found {
+			bad = append(bad, fn.Name()+": no unconditional call of "+target+" with the receiver's keeper")
+		}
 	}
+	sort.Strings(bad)
 	return bad, n
 }
